@@ -23,6 +23,7 @@ type CConfig struct {
 	Late        bool     `json:"late"`         // every chain has one more service ("sl") that is not registered in the prologue: "register" steps submit it during the run
 	SplitGroups bool     `json:"split_groups"` // one-to-many groups only from services of the first chain, one-to-one traffic only from the others (so that the two reference models never share a transaction id)
 	SamePairs   bool     `json:"same_pairs"`   // also pairs inside one appchain, incl. a service calling itself
+	RoleOps     bool     `json:"role_ops"`     // new governance administrators and the audit-administrator cycle are registered during the run (grant clause of C14)
 	RuleOps     bool     `json:"rule_ops"`     // rule lifecycle: further rules are registered, the master rule is updated through governance (approved or rejected), rules are logged out
 	RefRestart  []int    `json:"ref_restart"`  // profiles with a single replica: it is stopped and reopened after these block indexes
 	BigBlocks   bool     `json:"big_blocks"`   // few cuts: most blocks are filled to the sequencer's limit
@@ -132,6 +133,7 @@ func Generate(prop string, r *sim.Rand, tier string) *sim.Plan {
 	cfg.BigBlocks = r.Chance(0.35)
 	cfg.SplitGroups = prop == "C06"
 	cfg.RuleOps = (prop == "C03" || prop == "C16") && r.Chance(0.5)
+	cfg.RoleOps = prop == "C14" && r.Chance(0.4)
 	switch prop {
 	case "C02", "C04", "C06", "C16", "C01":
 		cfg.SamePairs = r.Chance(0.4)
@@ -327,8 +329,8 @@ func (g *gen) step(prop string) []CStep {
 		if prop == "C16" {
 			wg = []int{6, 5, 10, 5, 1}
 		}
-		if g.cfg.RuleOps && r.Chance(0.05) {
-			return []CStep{CStep{Op: "ruleop", A: r.Intn(4), N: r.Intn(2), Act: []string{"update", "update", "update", "register", "logout"}[r.Intn(5)], V: []string{"approve", "reject"}[r.Intn(2)]}}
+		if g.cfg.RuleOps && r.Chance(0.08) {
+			return []CStep{CStep{Op: "ruleop", A: r.Intn(4), N: r.Intn(2), Act: []string{"update", "update", "update", "register", "logout"}[r.Intn(5)], V: []string{"approve", "approve", "reject"}[r.Intn(3)]}}
 		}
 		switch r.Weighted(wg) {
 		case 0:
@@ -434,6 +436,9 @@ func (g *gen) step(prop string) []CStep {
 			return []CStep{g.relayIBTP()}
 		}
 	case "C14":
+		if g.cfg.RoleOps && r.Chance(0.05) {
+			return []CStep{CStep{Op: "adminreg", A: r.Intn(100), N: r.Intn(4)}}
+		}
 		if r.Chance(0.3) {
 			return []CStep{g.cut()}
 		}
